@@ -15,6 +15,21 @@
 (*          called with `mean` and answered with the transformed lattice   *)
 (*          point i                                                        *)
 (*   "u"    (scripted runs) random_state.uniform() answered u              *)
+(*   "gam"  (robust runs) the gamma slice sampler returned the current     *)
+(*          state's log-likelihood val for the fresh gamma; the code then  *)
+(*          recomputes logposterior[n-1] = val + logprior[n-1]             *)
+(*   "mh"   (seeded runs, recorded by a subclass around _get_mh_ratio) the *)
+(*          two log-posteriors that enter the ratio: pc = logposterior[n], *)
+(*          pp = logposterior[n-1], with oracle fields prc / prp = the     *)
+(*          prior log density of params[n] / params[n-1] evaluated         *)
+(*          directly with scipy (trusted base).  "q" carries lpr = the log *)
+(*          density scipy returned, "lik" carries val = the returned       *)
+(*          log-likelihood.  All in 10^-6; 2147000000 = non-finite / too   *)
+(*          large (such steps are not decided).                            *)
+(*          P: each side of the ratio is likelihood + prior log density OF *)
+(*          THAT STATE: the candidate's = val of its likelihood evaluation *)
+(*          + prc; the current state's = (robust) val of the last "gam" +  *)
+(*          prp, (standard) the posterior it was accepted with.            *)
 (*   "end"  the call returned (res = "ok": nsim, nout = number of returned *)
 (*          samples, nbat) or raised                                       *)
 (* Trace constants: n (n_samples), nsr (n_sim_round), bs, burn, tb         *)
@@ -45,16 +60,24 @@ VARIABLES tid, l,
           oos,        \* index vectors known to lie outside the prior support
           scr,        \* scripted runs: the lattice point random_state answered with, or <<>>
           nlik,       \* likelihood evaluations so far
+          fxs,        \* fixed-point bookkeeping of seeded runs: [lik, gam, cur, lpr] =
+                      \*   last likelihood value, last gamma-sampler value, log-posterior the current
+                      \*   state was accepted with, prior log density of the outstanding proposal
           verdict, drift, done
-vars == <<tid, l, pos, ch, cur, curpr, postPrev, postCur, phase, bats, oos, scr, nlik, verdict, drift, done>>
+vars == <<tid, l, pos, ch, cur, curpr, postPrev, postCur, phase, bats, oos, scr, nlik, fxs, verdict, drift, done>>
 
 T == Traces[tid]
 Scripted == T.mode = "scripted"
+Near(a, b, tol) == a - b <= tol /\ b - a <= tol
+NoFx == 2147000000
+IsFx(v) == v > -1000000000 /\ v < 1000000000      \* (sums must stay inside 32 bits)
+AddFx(a, b) == IF IsFx(a) /\ IsFx(b) /\ IsFx(a + b) THEN a + b ELSE NoFx
+\* logged value v equals the expected sum w (both fixed point) - decided only when both are finite
+SameFx(v, w) == ~IsFx(v) \/ ~IsFx(w) \/ Near(v, w, 3)
 Init == /\ tid \in 1..Len(Traces) /\ l = 1 /\ pos = 0 /\ ch = <<>> /\ cur = <<>> /\ curpr = <<1, 1>>
         /\ postPrev = <<1, 1>> /\ postCur = <<1, 1>> /\ phase = "init" /\ bats = {} /\ oos = {} /\ scr = <<>>
-        /\ nlik = 0 /\ verdict = "ok" /\ drift = "" /\ done = FALSE
+        /\ nlik = 0 /\ fxs = [lik |-> NoFx, gam |-> NoFx, cur |-> NoFx, lpr |-> NoFx] /\ verdict = "ok" /\ drift = "" /\ done = FALSE
 
-Near(a, b, tol) == a - b <= tol /\ b - a <= tol
 OnLattice(iv) == Len(iv) = T.p /\ \A k \in 1..T.p : iv[k] >= 1 /\ iv[k] <= Len(T.lat[k])
 EVec(iv) == [k \in 1..T.p |-> T.lat[k][iv[k]].E]
 HaveChain(k) == k <= Len(T.chain)
@@ -108,6 +131,15 @@ JudgeU(e) ==
 JudgePendingStep ==
   IF phase = "u" /\ ~Scripted /\ HaveChain(pos + 1) /\ Actual # cur /\ Actual # Last THEN "P:chain-step" ELSE "ok"
 
+\* the two posteriors that enter the ratio (seeded runs)
+JudgeMh(e) ==
+  IF Scripted THEN <<"ok", "">>
+  ELSE IF phase # "u" THEN Unexpected(e)
+  ELSE IF ~SameFx(e.pc, AddFx(fxs.lik, e.prc)) THEN <<"P:candidate-posterior-is-likelihood-plus-prior", "">>
+  ELSE IF ~SameFx(e.pp, IF T.robust THEN AddFx(fxs.gam, e.prp) ELSE fxs.cur)
+       THEN <<"P:current-posterior-is-likelihood-plus-prior-of-current-state", "">>
+  ELSE <<"ok", "">>
+
 JudgeProp(e) ==
   IF phase # "prop" \/ ~Scripted THEN Unexpected(e)
   ELSE IF ~OnLattice(e.i) \/ Len(e.mean) # T.p THEN <<"ok", "X:script">>
@@ -138,6 +170,8 @@ JudgeEnd(e) ==
   IN IF e.res # "ok" THEN <<"P:sample-raised", "">>
      ELSE IF pend # "ok" THEN <<pend, "">>
      ELSE IF Len(T.chain) # T.n \/ npos # T.n \/ e.nout # T.n - T.burn THEN <<"P:chain-length", "">>
+     ELSE IF Len(e.slp) # T.n \/ Len(e.opr) # T.n \/ \E k \in 1..T.n : ~SameFx(e.slp[k], e.opr[k])
+          THEN <<"ok", "M:stored-logprior-is-prior-of-slot">>
      ELSE IF e.nsim # T.nsr * nlik THEN <<"ok", "M:n-sim-counts-simulated-rounds">>
      ELSE IF e.nbat * T.bs # e.nsim THEN <<"ok", "M:n-batches">>
      ELSE <<"ok", "">>
@@ -149,6 +183,8 @@ Judge(e) ==
     [] e.ev = "u" -> JudgeU(e)
     [] e.ev = "prop" -> JudgeProp(e)
     [] e.ev = "q" -> JudgeQ(e)
+    [] e.ev = "mh" -> JudgeMh(e)
+    [] e.ev = "gam" -> <<"ok", "">>
     [] e.ev = "end" -> JudgeEnd(e)
     [] OTHER -> <<"ok", "X:unknown-event">>
 
@@ -198,9 +234,19 @@ Apply(e, m) ==
                       /\ UNCHANGED <<cur, curpr, postCur, bats, nlik>>
     [] OTHER -> Keep
 
+\* fixed-point bookkeeping (seeded runs); independent of Apply
+NextFxs(e) ==
+  CASE e.ev = "lik" -> [fxs EXCEPT !.lik = e.val, !.cur = IF pos = 0 THEN AddFx(e.val, fxs.lpr) ELSE fxs.cur]
+    [] e.ev = "gam" -> [fxs EXCEPT !.gam = e.val]
+    [] e.ev = "q" ->
+         LET accepted == StepFirst /\ HaveChain(pos + 1) /\ Actual = cur
+         IN [fxs EXCEPT !.cur = IF accepted THEN AddFx(fxs.lik, fxs.lpr) ELSE fxs.cur,
+                        !.lpr = IF e.fin THEN e.lpr ELSE fxs.lpr]
+    [] OTHER -> fxs
+
 Step ==
   /\ ~done
-  /\ IF l > Len(T.events) THEN done' = TRUE /\ UNCHANGED <<tid, l, verdict, drift>> /\ Keep
+  /\ IF l > Len(T.events) THEN done' = TRUE /\ UNCHANGED <<tid, l, verdict, drift, fxs>> /\ Keep
      ELSE LET e == T.events[l]
               jm == Judge(e)
           IN /\ verdict' = jm[1]
@@ -208,6 +254,7 @@ Step ==
              /\ done' = (jm[1] # "ok")
              /\ l' = l + 1 /\ UNCHANGED tid
              /\ IF jm[1] = "ok" THEN Apply(e, jm[2]) ELSE Keep
+             /\ fxs' = IF jm[1] = "ok" /\ ~Scripted THEN NextFxs(e) ELSE fxs
 
 Spec == Init /\ [][Step]_vars
 Report == done => PrintT(<<"V", tid, l, verdict, drift>>)
